@@ -85,6 +85,8 @@ def shoot_cases(draw):
         "maxlength": draw(st.sampled_from([4, 5, 6, 8, 10, 14, 20, 40, 80])),
         "allowmaxlength": draw(st.sampled_from([False, False, False, True])),
         "loaded": draw(st.sampled_from([False, False, False, True])),
+        # how the old path came to be: a move, or re-loaded at a restart ('re': obeys the length rule like any sampled path)
+        "origin": draw(st.sampled_from(["sh", "wf", "re", "s+"])),
         "script": draw(script_st(2)),
         "xi_mode": draw(st.sampled_from(["uniform", "at", "below", "above", "at-1", "at+1"])),
         "xi": draw(st.floats(0.001, 0.999)),
@@ -180,7 +182,7 @@ def membership(rec, tag, orders, e, maxlength, info):
 def build(c, wd, script, veldep=False, kick=False):
     e = c["ens"]
     eng = mk.make_engine(wd, script, veldep=veldep, kick=kick)
-    gen = ("ld", float("nan"), 0, 0) if c.get("loaded") else ("sh", 0.0, 0, 0)
+    gen = ("ld", float("nan"), 0, 0) if c.get("loaded") else (c.get("origin", "sh"), float("nan") if c.get("origin") == "re" else 0.0, 0, 0)
     old, fname = mk.make_path(wd, "old", c["old"], c["maxlength"], generated=gen, path_number=7)
     tis_set = {"maxlength": c["maxlength"], "allowmaxlength": c.get("allowmaxlength", False), "zero_momentum": False,
                "n_jumps": c.get("n_jumps", 2), "quantis": False, "lambda_minus_one": (-3.0 if e["kind"] == "minus_lm1" else False), "accept_all": False}
